@@ -156,7 +156,8 @@ if harness_ok:
     rc, so, se = run([BIN, "run", "C18", "--tier", tier, "--seed", str(seed)])
     harness_rc = rc
     harness_out = so
-    sys.stdout.write(so)
+    # the harness's own OK line is not the verdict of this check: the driver prints the final one
+    sys.stdout.write("".join(l + "\n" for l in so.splitlines() if not l.startswith("OK property=")))
 else:
     inconclusive.append("harness does not build against the current tree: run-time thread-sharing monitor skipped")
 
